@@ -1,0 +1,71 @@
+//go:build verif
+
+package proxy
+
+import (
+	"github.com/go-logr/logr"
+	"github.com/robinbraemer/event"
+
+	"go.minekube.com/gate/pkg/command"
+	"go.minekube.com/gate/pkg/edition/java/config"
+	"go.minekube.com/gate/pkg/edition/java/netmc"
+	"go.minekube.com/gate/pkg/edition/java/profile"
+	"go.minekube.com/gate/pkg/edition/java/proxy/crypto"
+	"go.minekube.com/gate/pkg/gate/proto"
+	"go.minekube.com/gate/pkg/util/permission"
+	"go.minekube.com/gate/pkg/util/uuid"
+)
+
+// Verification hooks for property C22 (commands run on the proxy or reach the backend exactly once).
+// Add-only, no logic: a constructor wiring the real chatHandler (+ chat queue) of a bare connectedPlayer
+// with caller-supplied connections, permission function, identified key, event and command managers.
+
+type c22ConfigProvider struct{ cfg *config.Config }
+
+func (c c22ConfigProvider) config() *config.Config { return c.cfg }
+
+// C22Fixture is a connectedPlayer with a connected backend and the real chat/command handler.
+type C22Fixture struct {
+	p *connectedPlayer
+	h *chatHandler
+}
+
+// C22NewFixture builds the player over client, connects it to backend and returns the fixture.
+// key may be nil.
+func C22NewFixture(client, backend netmc.MinecraftConn, eventMgr event.Manager, cmdMgr *command.Manager,
+	perm permission.Func, key crypto.IdentifiedKey, forceKeyAuthentication bool) *C22Fixture {
+	p := &connectedPlayer{
+		MinecraftConn: client,
+		log:           logr.Discard(),
+		profile:       &profile.GameProfile{ID: uuid.UUID{0xC2, 0x2}, Name: "c22"},
+		permFunc:      perm,
+		playerKey:     key,
+	}
+	p.chatQueue = newChatQueue(p)
+	sc := &serverConnection{player: p, log: logr.Discard()}
+	sc.connection = backend
+	p.connectedServer_ = sc
+	h := &chatHandler{
+		log:            logr.Discard(),
+		eventMgr:       eventMgr,
+		player:         p,
+		cmdMgr:         cmdMgr,
+		configProvider: c22ConfigProvider{cfg: &config.Config{ForceKeyAuthentication: forceKeyAuthentication}},
+	}
+	return &C22Fixture{p: p, h: h}
+}
+
+// C22HandleCommand forwards to chatHandler.handleCommand.
+func (f *C22Fixture) C22HandleCommand(p proto.Packet) error { return f.h.handleCommand(p) }
+
+// C22Player returns the fixture's player.
+func (f *C22Fixture) C22Player() Player { return f.p }
+
+// C22OnIdle calls fn once every chat-queue task queued so far has completed.
+func (f *C22Fixture) C22OnIdle(fn func()) {
+	cq := f.p.chatQueue
+	cq.internalLock.Lock()
+	head := cq.head
+	cq.internalLock.Unlock()
+	head.ThenAccept(func(any) { fn() })
+}
